@@ -12,7 +12,7 @@ use super::{SecondaryStorage, SecondaryTable, Snapshot};
 use crate::catalog::find_sort_key_id;
 use crate::storage::secondary::column::ColumnSeekPosition;
 use crate::storage::secondary::concat_iterator::ConcatIterator;
-use crate::storage::secondary::manifest::{AddRowSetEntry, DeleteRowsetEntry};
+use crate::storage::secondary::manifest::{AddRowSetEntry, DeleteDVEntry, DeleteRowsetEntry};
 use crate::storage::secondary::merge_iterator::MergeIterator;
 use crate::storage::secondary::rowset::{DiskRowset, RowsetBuilder, RowsetWriter};
 use crate::storage::secondary::statistics::create_statistics_global_aggregator;
@@ -183,6 +183,19 @@ impl Compactor {
                 table_id: table.table_ref_id,
             })
         }));
+
+        // The delete vectors of the old RowSets die with them.
+        for rowset in &selected_rowsets {
+            if let Some(dvs) = snapshot.get_dvs_of(table.table_id(), rowset.rowset_id()) {
+                changes.extend(dvs.iter().map(|dv_id| {
+                    EpochOp::DeleteDV(DeleteDVEntry {
+                        table_id: table.table_ref_id,
+                        dv_id: *dv_id,
+                        rowset_id: rowset.rowset_id(),
+                    })
+                }));
+            }
+        }
 
         #[cfg(feature = "verif")]
         crate::verif::gate("compactor.table.before_commit").await;
